@@ -3,7 +3,8 @@
 1. TLC model-checks spec/BitfieldImpl.tla (the word-level transcription of the bitfield headers)
    in lock-step with the set algebra of spec/Bitfield.tla: every state reachable from (null, null)
    through the operators, for (enum size, word width) in {1,3,8,9,17} x {8,16,32,64} (exhaustive up
-   to 9 enumerators, simulation for 17); invariants Refines (every operator commutes with Abs),
+   to 9 enumerators, simulation for 17 and for 33, 64, 65 enumerators - more than 32 resp. 64 bits,
+   up to nine storage words); invariants Refines (every operator commutes with Abs),
    EqualSetsEqualWords (same set => equal words and hashes), ObserversAgree, NoPadding,
    ConstructorsAgree, Laws.  Bug constants re-introduce one defect each (vacuity guards).
 2. TLC emits one operation script per generated transition of the 3-enumerator model; the harness
@@ -11,8 +12,18 @@
 3. The harness drives the real operators (code -> spec): every subset produced in six ways,
    every enumerator operation, every pair of subsets (exhaustive up to 9 enumerators), random
    expression trees (depth <= 6) and random register-machine histories.
+   Enums with 33, 64 and 65 enumerators (index >= 32 inside a 64-bit word, index 63, a second
+   64-bit word, up to nine 8-bit words) are driven with structured subsets around the word
+   boundaries of every word type plus seeded random ones.
 4. spec/BitfieldJudge.tla (TLC) judges every record with the set algebra of Bitfield.tla.
-Sanitizer reports of the harness become rejected events (observed, not decided by the spec)."""
+
+Failures caused by the code under test are verdicts (docs/EXTENSION_BRIEF.md, Clarification 2): one
+executable per enum; an executable of the in-scope part that does not compile is a VIOLATION
+(C10:bitfield_n<N>:does-not-compile) and the others are still judged; the record kinds outside the
+statement live in executables of their own (c10_bitfield_x<N>) whose compile errors, crashes and
+disagreements are OBSERVATIONS; crashes, sanitizer reports, hangs (alarm per record) and escaping
+exceptions end in C10:<operation>:<crash|sanitizer|hang|exception>, the complete records written
+before them are judged as usual."""
 import json
 import os
 import time
@@ -24,13 +35,52 @@ import vlib
 LEVEL = "model_checking"
 JUDGE = "BitfieldJudge"
 JUDGE_CFG = "BitfieldJudge.cfg"
-SIZES = (1, 3, 8, 9, 17)
+SIZES = (1, 3, 8, 9, 17, 33, 64, 65)
+BIG = (33, 64, 65)          # sampled around the word boundaries (harness: driver::big)
 WORDS = (8, 16, 32, 64)
-KIND_ORDER = {"single": 0, "elem": 1, "proxy": 1, "proxyx": 1, "out": 1, "rel": 2, "build": 3, "bits": 3, "pair": 4, "tree": 5, "hist": 6, "histp": 6}
+KIND_ORDER = {"single": 0, "elem": 1, "proxy": 1, "proxyx": 1, "out": 1, "rel": 2, "build": 3, "buildx": 3, "bits": 3, "pair": 4,
+              "tree": 5, "hist": 6, "histp": 6}
+KNOWN_KINDS = set(KIND_ORDER)
+FAILURES = {66: "sanitizer", 67: "crash", 68: "hang", 124: "timeout", 65: "exception"}
 
 
-def build():
-    return vlib.build_harness("c10_bitfield", ["c10_bitfield.cpp"] + ["c10_bitfield_n%d.cpp" % n for n in SIZES], libs=())
+def build_unit(part, n):
+    """One executable per enum and part ("in": the record kinds inside the statement, "obs": the
+    observed-only kinds).  Returns (path, None) or (None, first compiler error)."""
+    name = "c10_bitfield_%s%d" % ("n" if part == "in" else "x", n)
+    try:
+        return vlib.build_harness(name, [name + ".cpp"], libs=(), jobs=1), None
+    except vlib.Infra as e:
+        msg = str(e)
+        if "compile failed" not in msg and "link failed" not in msg:
+            raise
+        # (vlib keeps the last 6000 characters of the compiler output: the first "error:" line may be cut off)
+        first = next((l.strip() for l in msg.splitlines() if "error:" in l), " ".join(msg.split())[-300:])
+        return None, first[:400]
+
+
+def build_all(ctx, sizes=SIZES, parts=("in", "obs")):
+    """Builds the executables in parallel.  A unit that does not compile against the tree under test
+    is a verdict about that tree, not an infrastructure failure: the in-scope part drives nothing
+    but the API the statement names, with well-formed arguments - if the compiler rejects it the
+    property cannot hold for those inputs (VIOLATION C10:bitfield_n<N>:does-not-compile); an
+    observed-only unit becomes an OBSERVATION.  The other units are built and judged regardless."""
+    units = [(part, n) for part in parts for n in sizes]
+    res = vlib.parallel(lambda u: build_unit(u[0], u[1]), units, workers=vlib.NCPU)
+    bins = {}
+    for (part, n), (binary, err) in zip(units, res):
+        bins[(part, n)] = binary
+        if binary is not None:
+            continue
+        name = "c10_bitfield_%s%d" % ("n" if part == "in" else "x", n)
+        what = "harness unit %s.cpp (enum with %d enumerators, words of 8/16/32/64 bits) does not compile against the tree under test: %s" % (
+            name, n, err)
+        ctx.extra.setdefault("harness_units_not_built", []).append({"unit": name, "first_error": err})
+        if part == "in":
+            ctx.reject("C10:bitfield_n%d:does-not-compile" % n, what, {"args": {"mode": "build", "part": part, "n": n, "w": 0}})
+        else:
+            observe(ctx, "C10:observed_unit_x%d:does-not-compile" % n, what)
+    return bins
 
 
 def retry_killed(fn, *a, **kw):
@@ -69,11 +119,38 @@ def model_check(ctx, thorough):
     big = [(8, w) for w in WORDS] + [(9, w) for w in WORDS] if thorough else [(8, 8), (9, 8)]
     for n, w in big:
         mc(n, w, False, timeout=2400)
+    # and the converse sanity law (thorough): when the enumerators fill the words exactly there is no
+    # padding and the old operator~ is indistinguishable from the repaired one
+    if thorough:
+        r = retry_killed(vlib.tlc, "MC_BitfieldImpl", "MC_BitfieldImpl.cfg", workers=8, env=mc_env(8, 8, "not_padding", False), timeout=2400)
+        if not r.completed:
+            raise vlib.Infra("Bug=not_padding must be unobservable for 8 enumerators in 8-bit words")
+        ctx.extra["converse_guard"] = {"constants": {"N": 8, "W": 8, "Bug": "not_padding"}, "violates": None, "states": r.distinct}
+    ctx.extra["coverage_note"] = ("the lock-step model has one parameterised action; operation coverage is measured on the "
+                                  "emitted scripts (every operation name must be the last step of some script)")
+
+
+class SubCtx:
+    """mc_runs of a second model-checking thread (merged into ctx.mc_runs by the main thread)."""
+    def __init__(self):
+        self.mc_runs = []
+        self.extra = {}
+
+
+def model_check_light(ctx, seed, thorough):
+    """The cheap runs (random walks, vacuity guards; a few CPU-seconds each, mostly JVM start-up) -
+    in a thread of their own, next to the exhaustive runs of model_check.  ctx is a SubCtx."""
     # 17 enumerators: 2^34 pairs - random walks from (null, null)
     # (simulate=k generates k behaviours per worker; the algebraic Laws are left to the exhaustive runs)
-    for n, w in ([(17, w) for w in WORDS] if thorough else [(9, 16), (17, 8), (17, 16)]):
-        r = retry_killed(vlib.tlc_mc, ctx, "MC_BitfieldImpl", "MC_BitfieldImpl_sim.cfg", env=mc_env(n, w, "none", False), workers=4,
-                        simulate=(2000 if thorough else 100), depth=40, seed=ctx.seed, timeout=2400)
+    # 33, 64, 65 enumerators (bit index >= 32 in a 64-bit word, index 63, a second 64-bit word, five and
+    # nine storage words): random walks as well
+    wide = [(n, w) for n in BIG for w in WORDS] if thorough else [(33, 64), (64, 32), (65, 8), (65, 64)]
+    for n, w in ([(17, w) for w in WORDS] if thorough else [(9, 16), (17, 8), (17, 16)]) + wide:
+        # (wide enums: without ConstructorsAgree / UnderlyingAgrees, whose evaluation is quadratic in N, and fewer
+        # walks - under contention with the exhaustive runs these were the critical path of the quick tier)
+        r = retry_killed(vlib.tlc_mc, ctx, "MC_BitfieldImpl", "MC_BitfieldImpl_sim.cfg" if n <= 17 else "MC_BitfieldImpl_simwide.cfg",
+                        env=mc_env(n, w, "none", False), workers=4,
+                        simulate=((2000 if thorough else 100) if n <= 17 else (200 if thorough else 10)), depth=40, seed=seed, timeout=2400)
         ctx.mc_runs[-1]["constants"] = {"N": n, "W": w, "Bug": "none", "FullOps": False}
     # vacuity guards: each invariant CAN fail - with one defect re-introduced into the transcription
     # TLC must find a counterexample to the named invariant
@@ -92,23 +169,24 @@ def model_check(ctx, thorough):
         (9, 8, "proxy_rebind", "Refines"),
         (3, 8, "not_padding", "UnderlyingAgrees"),
         (9, 16, "not_padding", "UnderlyingAgrees"),
+        # the single-bit mask computed with a 32-bit shift: needs an enumerator >= 32 inside a 64-bit word
+        (33, 64, "mask_shift32", "Refines"),
+        (65, 64, "mask_shift32", "ObserversAgree"),
+        (17, 64, "mask_shift32", None),      # converse: invisible while every enumerator is below 32
     ]
     for n, w, bug, inv in guards:
+        if inv is None:
+            # the defect must NOT be visible in this configuration (random walks; the model localises it)
+            if thorough:
+                retry_killed(vlib.tlc_mc, ctx, "MC_BitfieldImpl", "MC_BitfieldImpl_sim.cfg", env=mc_env(n, w, bug, False), workers=4,
+                             simulate=200, depth=40, seed=seed, timeout=900)
+                ctx.mc_runs[-1]["constants"] = {"N": n, "W": w, "Bug": bug, "FullOps": False}
+            continue
         r = retry_killed(vlib.tlc, "MC_BitfieldImpl", "MC_BitfieldImpl_guard_%s.cfg" % inv, workers=4, env=mc_env(n, w, bug, n <= 3 or bug == "proxy_rebind"), timeout=900, expect=inv)
         if inv not in r.invariant_violated:
             raise vlib.Infra("vacuity guard: Bug=%s N=%d W=%d did not violate %s" % (bug, n, w, inv))
         ctx.extra.setdefault("vacuity_guards", []).append(
             {"constants": {"N": n, "W": w, "Bug": bug}, "violates": inv, "states": r.distinct})
-    # and the converse sanity law (thorough): when the enumerators fill the words exactly there is no
-    # padding and the old operator~ is indistinguishable from the repaired one
-    if thorough:
-        r = retry_killed(vlib.tlc, "MC_BitfieldImpl", "MC_BitfieldImpl.cfg", workers=8, env=mc_env(8, 8, "not_padding", False), timeout=2400)
-        if not r.completed:
-            raise vlib.Infra("Bug=not_padding must be unobservable for 8 enumerators in 8-bit words")
-        ctx.extra["vacuity_guards"].append({"constants": {"N": 8, "W": 8, "Bug": "not_padding"}, "violates": None, "states": r.distinct})
-    ctx.extra["coverage_note"] = ("the lock-step model has one parameterised action; operation coverage is measured on the "
-                                  "emitted scripts (every operation name must be the last step of some script)")
-
 
 def emit_scripts(ctx):
     r = retry_killed(vlib.tlc_mc, ctx, "MC_BitfieldImpl", "MC_BitfieldScripts.cfg", workers=4, env=mc_env(3, 8, "none", True))
@@ -153,17 +231,36 @@ def signature(reason):
     return "C10:" + reason.split("@")[0].replace("/", ":", 1)
 
 
-def harness_failure(ctx, what, rc, out, tail, payload):
-    kind = {66: "sanitizer", 67: "crash", 68: "hang", 124: "timeout"}.get(rc, "exit%d" % rc)
+def harness_failure(ctx, part, what, rc, out, tail, events, side, payload):
+    """The harness process did not end normally, or an exception escaped from the code under test.
+    events: the {"e":"crash"|"exc", "op":..., "f":...} lines the harness wrote."""
     if rc == 3:
         raise vlib.Infra("harness usage/script error (%s): %s" % (what, out[-400:]))
-    f = "?"
-    if tail:
-        m = re.search(r'"f":"(\w+)"', tail)
-        f = m.group(1) if m else "?"
+    report = (lambda sig, txt: ctx.reject(sig, txt, payload)) if part == "in" else (lambda sig, txt: observe(ctx, sig, txt))
     san = re.search(r"(ERROR: \w+Sanitizer: [^\n]*|runtime error: [^\n]*)", out)
-    ctx.reject("C10:%s:%s" % (f, kind), "%s while recording a %s record (%s): %s; partial line: %s" % (
-        kind, f, what, san.group(1) if san else out[-300:], (tail or "")[:300]), payload)
+    seen = set()
+    for ev in events:
+        if ev.get("e") == "exc":
+            sig = "C10:%s:exception" % ev.get("op", "?")
+            if sig not in seen:
+                report(sig, "an exception escaped from the code under test while recording a %s record (%s): %s" % (
+                    ev.get("f", "?"), what, str(ev.get("what", ""))[:300]))
+            seen.add(sig)
+    crash = [ev for ev in events if ev.get("e") == "crash"]
+    if rc not in (0, 65) or crash:
+        kind = FAILURES.get(rc, "exit%d" % rc)
+        if crash and crash[-1].get("what") in ("hang", "sanitizer"):
+            kind = crash[-1]["what"]
+        f, op = "?", None
+        if crash:
+            f, op = str(crash[-1].get("f", "?")), str(crash[-1].get("op", "?"))
+        elif side and side[0]:
+            op, f = side[0], side[1] or "?"
+        elif tail:
+            m = re.search(r'"f":"(\w+)"', tail)
+            f = m.group(1) if m else "?"
+        report("C10:%s:%s" % (op or f, kind), "%s while recording a %s record (%s): %s; partial line: %s" % (
+            kind, f, what, san.group(1) if san else out[-300:].strip(), (tail or "")[:300]))
 
 
 def kind_of(text):
@@ -240,7 +337,7 @@ def binding_guard(ctx, lines, rejected):
         m = re.match(r'\{"f":"(\w+)"', text)
         if m and m.group(1) not in first and (not m.group(1).startswith("hist") or '"ops":[]' not in text):
             first[m.group(1)] = json.loads(text)
-        if len(first) == 12:
+        if len(first) == len(KNOWN_KINDS):
             break
     out, want = [], set()
 
@@ -259,7 +356,7 @@ def binding_guard(ctx, lines, rejected):
             c["not"][0] = toggle0(c["not"][0])
         elif f == "elem":
             c["g"] = 1 - c["g"]
-        elif f == "build":
+        elif f in ("build", "buildx"):
             c["r"][0] = toggle0(c["r"][0])
         elif f == "tree":
             c["q"][2][4] = 1 - c["q"][2][4]
@@ -274,8 +371,15 @@ def binding_guard(ctx, lines, rejected):
         elif f == "bits":
             c["s0"][-1] = toggle0(c["s0"][-1])
         add(c, True)
+    # On a defective tree "accepted" is unreliable (the judge lists only the first 300 rejected records
+    # of a chunk) and there may be hardly any accepted record: the guard is strict only when the
+    # code gave no reason for complaint - never an infrastructure failure caused by the code under test.
+    strict = not ctx.violations and not ctx.extra.get("observations")
     if len(want) < 5:
-        raise vlib.Infra("binding guard: only %d corrupted records could be formed" % len(want))
+        if strict:
+            raise vlib.Infra("binding guard: only %d corrupted records could be formed" % len(want))
+        ctx.extra["binding_guard"] = {"skipped": "only %d accepted record kinds on a tree with rejected records" % len(want)}
+        return
     path = os.path.join(ctx.workdir, "judge_corrupted.ndjson")
     with open(path, "w") as fh:
         fh.write("\n".join(out) + "\n")
@@ -285,6 +389,9 @@ def binding_guard(ctx, lines, rejected):
     # out = untouched copy, corrupted copy, untouched, corrupted, ...: every corrupted copy must be
     # rejected.  (Its original is normally accepted; when the code is defective it may itself be rejected.)
     for k in sorted(want):
+        if not why.get(k) and not strict:
+            ctx.extra["binding_guard"] = {"skipped": "a corrupted copy was accepted on a tree with rejected records (its original was probably rejected beyond the judge's list of 300)"}
+            return
         if not why.get(k):
             raise vlib.Infra("binding guard: the judge did not notice the corruption of record %d: %s" % (k, out[k - 1][:300]))
     ctx.extra["binding_guard_originals_accepted"] = sum(1 for k in want if not why.get(k - 1))
@@ -305,8 +412,8 @@ def count_classes(ctx, lines, cap=150000):
             key += (r["p"], min(len(r["a"]), 4))
         elif f == "elem":
             key += (r["p"], r["e"], r["g"])
-        elif f == "build":
-            key += (r["how"], len(r["s"]))
+        elif f in ("build", "buildx"):
+            key += (r["how"], min(len(r["s"]), 9))
         elif f == "proxy":
             key += (r["p"], r["i"] == r["j"], r["i"] in r["a"], r["j"] in r["a"], r["j"] in r["b"])
         elif f == "proxyx":
@@ -329,11 +436,16 @@ def record_plan(ctx, thorough):
     """(n, w, pairs_mode, ntrees, nhist, bits_stride, lastword_stride) per instantiation.
     bits_stride k: all single-enumerator operations of every k-th subset; lastword_stride k (multi-word
     bitfields): all pairs of subsets differing only in the last storage word, every k-th choice of the
-    other words.  Thorough makes both exhaustive for the multi-word instantiations of 17 enumerators."""
+    other words.  Thorough makes both exhaustive for the multi-word instantiations of 17 enumerators.
+    Enums with more than 17 enumerators (BIG): ~55 structured + random subsets (harness), random pairs,
+    fewer trees and histories (their records are long)."""
     plan = []
     for n in SIZES:
         for w in WORDS:
             multi = n > w
+            if n in BIG:
+                plan.append((n, w, "4000" if thorough else "400", 1500 if thorough else 150, 300 if thorough else 40, 1, 1))
+                continue
             if n <= 3:
                 pairs = "all"
             elif n <= 9:
@@ -350,20 +462,54 @@ def record_plan(ctx, thorough):
     return plan
 
 
-def run_record(binary, ctx, item, tag="rec"):
-    n, w, pairs, ntrees, nhist, bits, lastword = item
-    path = os.path.join(ctx.workdir, "%s_%d_%d.ndjson" % (tag, n, w))
+def run_job(bins, ctx, job):
+    """job = (part, mode, n, w, item): runs one harness process, returns (job, path, rc, out)."""
+    part, mode, n, w, item = job
+    binary = bins.get((part, n))
+    if binary is None:
+        return job, None, None, ""
+    if mode == "scripts":
+        path = os.path.join(ctx.workdir, "replayed_%d_%d.ndjson" % (n, w))
+        rc, out = vlib.run_harness(binary, ["replay", item, path, n, w], timeout=900)
+        return job, path, rc, out
+    _, _, pairs, ntrees, nhist, bits, lastword = item
+    path = os.path.join(ctx.workdir, "rec_%s_%d_%d.ndjson" % (part, n, w))
     rc, out = vlib.run_harness(binary, ["record", path, n, w, ctx.seed, pairs, ntrees, nhist, bits, lastword,
                                         1 if ctx.tier == "thorough" else 0], timeout=2400)
-    return item, path, rc, out
+    return job, path, rc, out
 
 
-def collect(ctx, path, rc, out, what, args):
-    lines, tail = vlib.check_trace_file(path)
-    if rc != 0:
-        harness_failure(ctx, what, rc, out, tail, {"args": args})
-    os.unlink(path)
-    return [(l, args) for l in lines]
+def collect(ctx, part, path, rc, out, what, args):
+    """Complete records of one harness run (judged whatever happened afterwards); a process that
+    did not end normally / an escaped exception becomes a rejected event (in scope) or an
+    observation (observed-only part)."""
+    lines, tail = vlib.check_trace_file(path) if os.path.exists(path) else ([], None)
+    records, events = [], []
+    for l in lines:
+        try:
+            r = json.loads(l)
+        except ValueError:
+            continue
+        if isinstance(r, dict) and r.get("f") in KNOWN_KINDS and "n" in r and "w" in r:
+            records.append(l)
+        elif isinstance(r, dict) and r.get("e") in ("crash", "exc"):
+            events.append(r)
+        else:
+            tail = tail or l       # a line that parses but is not a record: treated like a truncated one
+    # the harness mirrors the operation / record kind it is working on into OUT.op (memory-mapped):
+    # the last word of a process that died without running any handler
+    side = None
+    try:
+        raw = open(path + ".op", "rb").read(128)
+        side = tuple(re.sub(r"[^\w<>=!|&^~\[\]-]", "", raw[k:k + 64].split(b"\0")[0].decode(errors="replace")) for k in (0, 64))
+        os.unlink(path + ".op")
+    except OSError:
+        pass
+    if rc != 0 or events:
+        harness_failure(ctx, part, what, rc, out, tail, events, side, {"args": args})
+    if os.path.exists(path):
+        os.unlink(path)
+    return [(l, args) for l in records]
 
 
 def run(ctx):
@@ -371,39 +517,48 @@ def run(ctx):
     # 1. the specification itself - in the background, while the harness is built and run
     mc_err = []
 
-    def mc_thread():
+    sub = SubCtx()
+
+    def mc_thread(fn, *a):
         try:
             # VERIF_C10_SKIP_MC=1: development switch for trying source mutants quickly (the
             # specification does not depend on the tree); such a run writes no usable evidence
             if os.environ.get("VERIF_C10_SKIP_MC") != "1":
-                model_check(ctx, thorough)
+                fn(*a)
         except BaseException as e:  # noqa: BLE001 - re-raised in the main thread
             mc_err.append(e)
     strides = []
     scripts = emit_scripts(ctx)
-    th = threading.Thread(target=mc_thread)
-    th.start()
+    ths = [threading.Thread(target=mc_thread, args=(model_check, ctx, thorough)),
+           threading.Thread(target=mc_thread, args=(model_check_light, sub, ctx.seed, thorough))]
+    for th in ths:
+        th.start()
     try:
-        binary = build()
-        # 2. spec -> code: every generated transition of the 3-enumerator model, on every word type
+        bins = build_all(ctx)
         spath = os.path.join(ctx.workdir, "scripts.ndjson")
         vlib.write_ndjson(spath, scripts)
-        lines = []
-        for w in WORDS:
-            rpath = os.path.join(ctx.workdir, "replayed_3_%d.ndjson" % w)
-            rc, out = vlib.run_harness(binary, ["replay", spath, rpath, 3, w], timeout=900)
-            lines += collect(ctx, rpath, rc, out, "TLC-generated scripts n=3 w=%d" % w, {"mode": "scripts", "n": 3, "w": w})
-        ctx.traces_validated += len(lines)
-        ctx.sample({"tlc_script": scripts[len(scripts) // 2]})
-        # 3. code -> spec
         plan = record_plan(ctx, thorough)
-        results = vlib.parallel(lambda it: run_record(binary, ctx, it), plan, workers=8)
-        for item, path, rc, out in results:
-            n, w, pairs, ntrees, nhist, bits, lastword = item
-            got = collect(ctx, path, rc, out, "record n=%d w=%d" % (n, w),
-                          {"mode": "record", "n": n, "w": w, "pairs": pairs, "ntrees": ntrees, "nhist": nhist,
-                           "bits": bits, "lastword": lastword, "deep": 1 if thorough else 0, "seed": ctx.seed})
-            ctx.traces_validated += nhist
+        # 2. spec -> code: every generated transition of the 3-enumerator model, on every word type
+        jobs = [("in", "scripts", 3, w, spath) for w in WORDS]
+        # 3. code -> spec: the record kinds inside the statement, then the observed-only kinds
+        jobs += [("in", "record", it[0], it[1], it) for it in plan]
+        jobs += [("obs", "record", it[0], it[1], (it[0], it[1], "0", 0, 0, 0, 0)) for it in plan]
+        results = vlib.parallel(lambda j: run_job(bins, ctx, j), jobs, workers=12)
+        lines = []
+        ctx.sample({"tlc_script": scripts[len(scripts) // 2]})
+        for job, path, rc, out in results:
+            part, mode, n, w, item = job
+            if path is None:
+                continue          # the unit did not compile (reported by build_all)
+            if mode == "scripts":
+                got = collect(ctx, part, path, rc, out, "TLC-generated scripts n=3 w=%d" % w, {"mode": "scripts", "part": part, "n": 3, "w": w})
+                ctx.traces_validated += len(got)
+            else:
+                _, _, pairs, ntrees, nhist, bits, lastword = item
+                got = collect(ctx, part, path, rc, out, "record%s n=%d w=%d" % ("" if part == "in" else " (observed-only kinds)", n, w),
+                              {"mode": "record", "part": part, "n": n, "w": w, "pairs": pairs, "ntrees": ntrees, "nhist": nhist,
+                               "bits": bits, "lastword": lastword, "deep": 1 if thorough else 0, "seed": ctx.seed})
+                ctx.traces_validated += nhist
             lines += got
             if len(lines) >= 1200000:
                 strides.append(count_classes(ctx, lines))
@@ -419,15 +574,22 @@ def run(ctx):
             rejected = judge_lines(ctx, lines, "recorded")
             binding_guard(ctx, lines, rejected)
     finally:
-        th.join()
+        for th in ths:
+            th.join()
     if mc_err:
         raise mc_err[0]
+    ctx.mc_runs += sub.mc_runs
+    ctx.extra.update(sub.extra)
+    if "converse_guard" in ctx.extra:
+        ctx.extra.setdefault("vacuity_guards", []).append(ctx.extra.pop("converse_guard"))
     ctx.extra["record_plan"] = [{"n": n, "w": w, "pairs": p, "trees": t, "histories": h, "bits_stride": b, "lastword_stride": lw}
                                 for n, w, p, t, h, b, lw in plan]
     ctx.exhaustive = False
     ctx.rule = ("records of the real operators judged by TLC: for each (enum size, word width) every subset (<= 9 enumerators; "
-                "a sample of 228 for 17) produced in six ways (set, init, ~complement, ~~, xor with ~null, or with ~all) x every "
-                "enumerator operation, all 36 two-way productions of the same subset, every pair of subsets where the plan says "
+                "a sample of 228 for 17; ~55 structured subsets around the 8/16/32/64-bit word boundaries plus random ones for "
+                "33, 64 and 65 enumerators) produced in six ways (set, init, ~complement, ~~, xor with ~null, or with ~all) x every "
+                "enumerator operation (33-65: the enumerators next to the 32/64-bit boundaries), all 36 two-way productions of the "
+                "same subset, every pair of subsets where the plan says "
                 "'all' (quick: sizes 1, 3 and (8,8), (9,8); thorough: every size <= 9) and random pairs otherwise, random "
                 "expression trees of depth <= 6, random register-machine histories <= 40 ops, and one TLC-generated script per "
                 "transition of the 3-enumerator model.  A class = (record kind, enum size, word width, how the operands were "
@@ -439,13 +601,18 @@ def run(ctx):
         "the hash is only required to be equal for equal sets; nothing is demanded for different sets",
         "BitfieldImpl.tla is a hand transcription of the headers; verdicts about the code come only from the recorded calls judged with Bitfield.tla",
         "17 enumerators: pairs, single subsets and model states are sampled (2^34 pairs); exhaustive only up to 9 enumerators",
+        "33, 64, 65 enumerators: structured + seeded random subsets, pairs and histories; the model is exercised by random walks only",
     ]
 
 
 def replay(ctx, payload):
-    binary = build()
     args = payload["payload"]["args"]
-    n, w = args["n"], args["w"]
+    n, w, part = args["n"], args["w"], args.get("part", "in")
+    bins = build_all(ctx, sizes=(n,), parts=(part,))
+    binary = bins.get((part, n))
+    if args["mode"] == "build" or binary is None:
+        ctx.rule = "replay: the harness unit for %d enumerators is built again on the current tree" % n
+        return
     if args["mode"] == "scripts":
         # the saved record carries its own operation list
         rec = payload["payload"].get("record")
@@ -453,12 +620,12 @@ def replay(ctx, payload):
         vlib.write_ndjson(spath, [rec["ops"]] if rec else [])
         rpath = os.path.join(ctx.workdir, "replay_out.ndjson")
         rc, out = vlib.run_harness(binary, ["replay", spath, rpath, n, w], timeout=600)
-        lines = collect(ctx, rpath, rc, out, "replay of a script", args)
+        lines = collect(ctx, part, rpath, rc, out, "replay of a script", args)
     else:
         rpath = os.path.join(ctx.workdir, "replay_out.ndjson")
         rc, out = vlib.run_harness(binary, ["record", rpath, n, w, args["seed"], args["pairs"], args["ntrees"], args["nhist"],
                                             args.get("bits", 0), args.get("lastword", 0), args.get("deep", 0)], timeout=2400)
-        lines = collect(ctx, rpath, rc, out, "replay of the recording n=%d w=%d" % (n, w), args)
+        lines = collect(ctx, part, rpath, rc, out, "replay of the recording n=%d w=%d" % (n, w), args)
     ctx.traces_validated += 1
     count_classes(ctx, lines)
     if lines:
